@@ -10,6 +10,8 @@ CFG = {'assumptions': ['all bytes in [0,256)',
         'pbcmpl.Marshal/faulty': 'pbcmpl.Marshal into a writer that follows a script of (bytes accepted, fail?) responses',
         'pbcmpl.Marshal/encerr': 'widening: pbcmpl.Marshal of a message whose own Marshal method returns an error, into a scripted writer',
         'pbcmpl.Unmarshal/chunks': 'widening: pbcmpl.Unmarshal until the first error on a reader that delivers an explicit chunk list, empty chunks = Read returning (0, nil) included',
+        'pbcmpl.Unmarshal/bufio': 'pbcmpl.Unmarshal until the first error with the reader wrapped in bufio.NewReaderSize(reader, size)',
+        'pbcmpl.Marshal/session': 'several pbcmpl.Marshal calls one after the other in ONE process, each into its own scripted writer (fail = 2: an error with Temporary() == true)',
         'pbcmpl.Walk/bytes': 'widening: a user loop of pbcmpl.ReadHeader + io.ReadFull(GetBodySize) on arbitrary bytes (refuses hsize != 32, bsize < 0 or > 64 KiB)'},
  'rule': 'cases = EVERY cut point 0..len of frames (body lengths 0,1,2,31,32,33,100 [+127..700 thorough]) x terminal {EOF, injected '
          'error} x {alone, with the last chunk} x chunking {whole, 1 byte, random}, also behind a complete frame; writer failing '
